@@ -125,8 +125,10 @@ def gen_cases(ctx, n):
         spec = U.gen_profile(rng, small=(i % 3 == 0))
         g = U.HistoryGen(rng, U.flatten(spec), hooks_p=0.3 if i % 4 else 0.0, allow_raise=(i % 2 == 0))
         n = rng.randrange(8, 26)
-        cases.append((spec, g.exec_history(n) if i % 8 == 5 else g.sub_history(n) if i % 8 == 6
-                      else g.hook_history(n) if i % 8 in (1, 3) else g.response_history(max(n, 30)) if i % 8 == 7 else g.history(n)))
+        k = i % 10
+        cases.append((spec, g.exec_history(n) if k == 5 else g.sub_history(n) if k == 6
+                      else g.hook_history(n) if k in (1, 3) else g.response_history(max(n, 30)) if k == 7
+                      else g.mtu_history(n) if k == 9 else g.history(n)))
     return cases
 
 
@@ -152,7 +154,7 @@ def run(ctx):
     for w in U.load_corpus(PID):
         cases.append((w["profile"], [U.ev_from_json(e) for e in w["events"]]))
         meta.append({"kind": "corpus", "file": w["file"], "key": w.get("key")})
-    n = 2500 if ctx.thorough else 260
+    n = 2500 if ctx.thorough else 300
     for c in gen_cases(ctx, n):
         cases.append(c)
         meta.append({"kind": "generated"})
